@@ -88,14 +88,8 @@ Print Assumptions c04_promoted_once.
 
 (* In every reachable state, a report (resource r >= 1) of a running trial whose next milestone is
    ms gets: STOP iff r >= max_t, PAUSE iff r = ms < max_t, CONTINUE iff r < ms (and < max_t); the
-   skipped-milestone assertion is raised exactly when ms < r < max_t, i.e. never for a report that
-   does not jump over the milestone.
-   PARTIAL with respect to DESIGN section 6: the trace-level corollary "under consecutive reporting
-   (every report of a running trial is at most 1 above its previous report / its resume level)
-   run cfg evs <> Err ESkipped" needs the ghost invariant  last_reported(t) < milestone(t), which is
-   not proved here:
-     forall cfg evs, cfg_wf cfg -> consecutive cfg evs -> run cfg evs <> Err ESkipped. *)
-Theorem c04_pause_at_milestone_partial :
+   skipped-milestone assertion is raised exactly when ms < r < max_t. *)
+Theorem c04_pause_at_milestone :
   forall cfg evs st os t r m c eps ti br rs ms rf,
   run cfg evs = Ok (st, os) ->
   lookup t (st_active st) = Some ti -> ti_dec ti = CONTINUE -> lookup t (st_task st) = Some br ->
@@ -106,21 +100,66 @@ Theorem c04_pause_at_milestone_partial :
   | Err e => e = ESkipped <-> (ms < r < c_max_t cfg)%Z
   end.
 Proof. exact pause_at_milestone_step. Qed.
-Print Assumptions c04_pause_at_milestone_partial.
+Print Assumptions c04_pause_at_milestone.
 
-(* A trial returned for resume is known to the scheduler and not marked as running (its
-   trial_decision is PAUSE or STOP); afterwards it is marked as running.
-   PARTIAL: this is the model of the two assertions in _promote_trial; the full statement
-   "for every event sequence these assertions never fail (run cfg evs <> Err EAssert) and, under the
-   tuner protocol, the decision is PAUSE" needs the invariant "a running trial holds no unpromoted
-   entry, a non-running trial at most one", not proved here. *)
-Theorem c04_resumes_only_paused_partial :
-  forall cfg st n br b got st' t mra s j from nxt,
+(* Trace level: under consecutive reporting the skipped-milestone assertion is unreachable.
+   [consecutive cfg st last evs] (proofs/PromotionProofs.v) follows the run and a ghost map
+   trial -> last reported level: every report of a RUNNING trial is exactly one above its previous
+   report in this run; a new trial starts at 1; after a resume from level f the trial either continues
+   at f + 1 (script-side checkpointing) or restarts at 1 (no checkpointing), chosen independently at
+   every resume; reports of non-running trials (late reports) and all other events are unconstrained.
+   With c04_pause_at_milestone every PAUSE / STOP of such a run happens exactly at the milestone /
+   at max_t. *)
+Theorem c04_no_skipped_milestone :
+  forall cfg evs, cfg_wf cfg -> cfg_pos cfg ->
+  consecutive cfg (init cfg) [] evs -> run cfg evs <> Err ESkipped.
+Proof. exact no_skipped_milestone. Qed.
+Print Assumptions c04_no_skipped_milestone.
+
+(* No event sequence whatsoever makes an assertion of _promote_trial ("paused trial must be in
+   _active_trials", "paused trial marked as running"), of on_task_add (resume_from < milestone) or of
+   _mark_as_promoted fail. Rests on the invariant U_inv: a running trial holds no unpromoted entry,
+   any other trial at most one (over all rungs of all rung systems). *)
+Theorem c04_no_failed_assertion :
+  forall cfg, cfg_wf cfg -> forall evs, run cfg evs <> Err EAssert.
+Proof. exact run_no_assert. Qed.
+Print Assumptions c04_no_failed_assertion.
+
+(* Every trial returned for resume is known, not marked as running, absent from _task_info and from
+   _running of every rung system; and if the events follow the tuner protocol for completion /
+   failure (on_trial_complete / on_trial_error only for running trials: [proto_from]) its recorded
+   decision is PAUSE. *)
+Theorem c04_resumes_only_paused :
+  forall cfg evs st os n br b got st' t mra s j from nxt,
+  cfg_wf cfg -> run cfg evs = Ok (st, os) ->
   suggest cfg st n br b got = Ok (st', OResume t mra s j from nxt) ->
-  (exists ti, lookup t (st_active st) = Some ti /\ ti_dec ti <> CONTINUE) /\
-  (exists ti', lookup t (st_active st') = Some ti' /\ ti_dec ti' = CONTINUE).
-Proof. exact resume_not_running. Qed.
-Print Assumptions c04_resumes_only_paused_partial.
+  (exists ti, lookup t (st_active st) = Some ti /\ ti_dec ti <> CONTINUE /\
+              (proto_from cfg (init cfg) evs -> ti_dec ti = PAUSE)) /\
+  lookup t (st_task st) = None /\
+  (forall s' rs, nth_error (st_sys st) s' = Some rs -> lookup t (rs_running rs) = None).
+Proof. exact resumes_only_paused. Qed.
+Print Assumptions c04_resumes_only_paused.
+
+(* The invariant itself, for every reachable state. *)
+Theorem c04_unpromoted_invariant :
+  forall cfg evs st os, run cfg evs = Ok (st, os) -> U_inv false st.
+Proof. exact reach_U. Qed.
+Print Assumptions c04_unpromoted_invariant.
+
+(* Rung.quantile (as modelled) is numpy.quantile(method="linear") of the rung's metric values in
+   increasing order, at q = prom_quant (min) resp. 1 - prom_quant (max); and that list is ascending
+   whenever the rung is sorted best first (which holds in every reachable state). *)
+Theorem c04_quantile_is_numpy_linear :
+  forall md r, (2 <= length (r_data r))%nat -> 0 < r_q r -> r_q r < 1 ->
+  exists c, quantile md r = Some c /\
+            c == np_quantile (asc_metrics md (r_data r)) (match md with Min => r_q r | Max => 1 - r_q r end).
+Proof. exact quantile_is_numpy_linear. Qed.
+Print Assumptions c04_quantile_is_numpy_linear.
+
+Theorem c04_quantile_input_ascending :
+  forall md l, sorted md l -> Sorted.StronglySorted Qle (asc_metrics md l).
+Proof. exact asc_metrics_sorted. Qed.
+Print Assumptions c04_quantile_input_ascending.
 
 (* non-vacuity: a well-formed configuration and a concrete run (three trials pause at level 1 with
    metrics 1, 2, 3; the next suggest resumes the best one from rung position 1 to level 3; the one
@@ -130,13 +169,15 @@ Example c04_example :
   let evs := [Suggest 0 0 true true; Suggest 1 0 true true; Suggest 2 0 true true;
               Report 0 1 1 0 0; Remove 0; Report 1 1 2 0 0; Remove 1; Report 2 1 3 0 0; Remove 2;
               Suggest 3 0 true true; Suggest 3 0 true true] in
-  cfg_wf cfg /\
+  cfg_wf cfg /\ cfg_pos cfg /\ consecutive cfg (init cfg) [] evs /\ proto_from cfg (init cfg) evs /\
   exists st, run cfg evs =
     Ok (st, [OStart 0 (Some 1%Z); OStart 1 (Some 1%Z); OStart 2 (Some 1%Z);
              ODecision PAUSE; OUnit; ODecision PAUSE; OUnit; ODecision PAUSE; OUnit;
              OResume 0 (Some 3%Z) 0 1 1 3; OStart 3 (Some 1%Z)]).
 Proof.
-  split.
-  - split; simpl; repeat constructor.
-  - eexists. vm_compute. reflexivity.
+  split; [split; simpl; repeat constructor|].
+  split; [split; simpl; [repeat constructor|]; lia|].
+  split; [vm_compute; intuition congruence|].
+  split; [vm_compute; intuition congruence|].
+  eexists. vm_compute. reflexivity.
 Qed.
